@@ -13,6 +13,7 @@ import (
 	"io"
 	"sync"
 
+	"github.com/fxamacker/cbor/v2"
 	cose "github.com/veraison/go-cose"
 )
 
@@ -240,6 +241,11 @@ func (w *world) readerOf(x any) io.Reader {
 
 func extArg(st J) []byte {
 	b := bytesOf(st["ext"])
+	if a, ok := st["ext"].([]any); ok && len(a) == 4 {
+		if f, ok := a[0].(float64); ok && f == -2 {
+			return payloadOf(st["ext"]) // size token: long external data
+		}
+	}
 	if nilext, _ := st["extnil"].(bool); nilext || b == nil {
 		if len(b) == 0 {
 			if e, ok := st["extempty"].(bool); ok && e {
@@ -523,6 +529,12 @@ func (w *world) step(st J) J {
 			var val any
 			if b, ok := st["buf"]; ok {
 				val = append([]byte{}, w.bufs[str(b)]...)
+			} else if names, ok := st["css"].([]any); ok {
+				var list []*cose.Countersignature
+				for _, n := range names {
+					list = append(list, w.objs[str(n)].(*cose.Countersignature))
+				}
+				val = list
 			} else {
 				val = w.objs[str(st["cs"])].(*cose.Countersignature)
 			}
@@ -631,6 +643,9 @@ func (w *world) step(st J) J {
 		case "setsig":
 			// environment step: overwrite a signature field (transplant / corruption)
 			b := sigBytes(st["sig"])
+			if st["nonnil"] == true && b == nil {
+				b = []byte{}
+			}
 			if from, ok := st["frombuf"]; ok {
 				b = append([]byte{}, w.bufs[str(from)]...)
 			}
@@ -686,6 +701,40 @@ func (w *world) step(st J) J {
 			case *cose.Countersignature:
 				w.bufs[str(st["buf"])] = append([]byte{}, o.Signature...)
 			}
+		case "setalg":
+			// caller edits the parsed protected map (retained raw bytes, if any, stay)
+			if o, ok := w.objs[name].(*cose.Sign1Message); ok {
+				if o.Headers.Protected == nil {
+					o.Headers.Protected = cose.ProtectedHeader{}
+				}
+				if st["absent"] == true {
+					delete(o.Headers.Protected, cose.HeaderLabelAlgorithm)
+				} else {
+					o.Headers.Protected[cose.HeaderLabelAlgorithm] = cose.Algorithm(num(st["alg"]))
+				}
+			}
+		case "setkid":
+			if o, ok := w.objs[name].(*cose.Sign1Message); ok {
+				if o.Headers.Unprotected == nil {
+					o.Headers.Unprotected = cose.UnprotectedHeader{}
+				}
+				o.Headers.Unprotected[cose.HeaderLabelKeyID] = bytesOf(st["kid"])
+			}
+		case "clearraw":
+			if o, ok := w.objs[name].(*cose.Sign1Message); ok {
+				o.Headers.RawProtected, o.Headers.RawUnprotected = nil, nil
+			}
+		case "rewire":
+			// the environment rewrites one element of the COSE_Sign1 array held in a buffer (bytes in transit)
+			b := w.bufs[str(st["buf"])]
+			if nb, ok := rewire(b, num(st["idx"]), st); ok {
+				w.bufs[str(st["buf"])] = nb
+				obs["out"] = rawJ(nb)
+				obs["outnil"] = nb == nil
+			} else {
+				obs["out"] = rawJ(b)
+				obs["outnil"] = b == nil
+			}
 		case "probe":
 			// no operation: only reports the projected state of the object
 		case "scribble":
@@ -722,10 +771,52 @@ func init() {
 		for _, s := range steps {
 			obs = append(obs, w.step(s.(map[string]any)))
 		}
-		ev := J{"op": "memflow", "obs": obs}
+		ev := J{}
 		for k, v := range c {
 			ev[k] = v
 		}
+		ev["op"], ev["obs"] = "memflow", obs
 		return ev
 	}
+}
+
+// rewire replaces element idx of a tagged COSE_Sign1 array by the given raw encoding ("elem"), or re-spells the
+// length prefix of a bstr element at the given width ("width": 0 = shortest, 1, 2, 4, 8).
+func rewire(b []byte, idx int, st J) ([]byte, bool) {
+	if len(b) < 2 || b[0] != 0xd2 || b[1] != 0x84 {
+		return nil, false
+	}
+	var elems []cbor.RawMessage
+	if err := cbor.Unmarshal(b[1:], &elems); err != nil || len(elems) != 4 {
+		return nil, false
+	}
+	if e, ok := st["elem"]; ok {
+		elems[idx] = bytesOf(e)
+	} else if wv, ok := st["width"]; ok {
+		var content []byte
+		if err := cbor.Unmarshal(elems[idx], &content); err != nil {
+			return nil, false
+		}
+		n := len(content)
+		var head []byte
+		switch num(wv) {
+		case 0:
+			head, _ = cbor.Marshal(content)
+			head = head[:len(head)-n]
+		case 1:
+			head = []byte{0x58, byte(n)}
+		case 2:
+			head = []byte{0x59, byte(n >> 8), byte(n)}
+		case 4:
+			head = []byte{0x5a, 0, 0, byte(n >> 8), byte(n)}
+		case 8:
+			head = []byte{0x5b, 0, 0, 0, 0, 0, 0, byte(n >> 8), byte(n)}
+		}
+		elems[idx] = append(append([]byte{}, head...), content...)
+	}
+	out := []byte{0xd2, 0x84}
+	for _, e := range elems {
+		out = append(out, e...)
+	}
+	return out, true
 }
